@@ -24,10 +24,11 @@ def run(ctx):
                         "without narrowing and every write lands inside the frame (shared with C07-R6)")
     res.not_decided += ["'fits => appended', 'segment alone in its frame', 'all but last fill to max' (depend on run-time sizes)"]
     E.rule_flag_table(res, "C08-R1", m)
-    obs, _ = accessors.analyse(fb, ctx.spec("layout.json"))
+    obs, ast = accessors.analyse(fb, ctx.spec("layout.json"), scope=lambda cls, stem: cls == "ASAM::CMP::MessageHeader" and stem == "SegmentType")
     for o in obs:
         if o.cls == "ASAM::CMP::MessageHeader" and "SegmentType" in o.key:
             res.check(o.ok, "C08-R2", o.key, o.loc, o.detail)
+    accessors.require_supported(ast)
     E.rule_type_change_rebuilds_template(res, "C08-R3", m)
     E.rule_type_change_opens_frame(res, "C08-R3", m)
     n4 = E.rule_fit_decided_on_fresh_frame(res, "C08-R4", m, placement=True)
